@@ -44,12 +44,12 @@ func (i Id) HasPrefix(prefix string) bool {
 
 // UnmarshalGQL implement the Unmarshaler interface for gqlgen
 func (i *Id) UnmarshalGQL(v interface{}) error {
-	_, ok := v.(string)
+	str, ok := v.(string)
 	if !ok {
 		return fmt.Errorf("IDs must be strings")
 	}
 
-	*i = v.(Id)
+	*i = Id(str)
 
 	if err := i.Validate(); err != nil {
 		return errors.Wrap(err, "invalid ID")
